@@ -343,13 +343,17 @@ class DriverError(RuntimeError):
     pass
 
 
-def run_driver(lines: Iterable[dict[str, Any]], timeout: float = 3600.0) -> list[Any]:
-    """Pipe JSON lines through the compiled model driver and return its parsed answers."""
+def run_driver(lines: Iterable[dict[str, Any]], timeout: float = 3600.0, exe: str = "kskm_driver") -> list[Any]:
+    """Pipe JSON lines through a compiled model driver and return its parsed answers."""
+    lines = list(lines)
+    if not lines:
+        return []
     payload = "\n".join(json.dumps(x, separators=(",", ":")) for x in lines) + "\n"
-    if not DRIVER.exists():
-        raise DriverError(f"model driver not built: {DRIVER}")
+    path = DRIVER.parent / exe
+    if not path.exists():
+        raise DriverError(f"model driver not built: {path}")
     proc = subprocess.run(
-        [str(DRIVER)],
+        [str(path)],
         input=payload.encode(),
         stdout=subprocess.PIPE,
         stderr=subprocess.PIPE,
